@@ -109,6 +109,7 @@ class elf_hash:
     loops = {0: dict(invariant=["h == elfhash32(name, $k)", "0 <= h", "h < 2**28"])}
     native_seeds = [dict(name=b'\xfc<=$\xbc7\xf0'), dict(name=b'\xff' * 9)]
     ensures = ["result == elfhash32(name, len(name))"]
+    solver = dict(timeout_ms=60000)       # the step lemma takes z3 about 9 s on an idle machine: keep the verdict stable under load
 
 
 @contract("elftools/elf/hash.py", "GNUHashTable.gnu_hash", props=["C03", "C09"])
